@@ -366,8 +366,8 @@ class QueryPlanner:
         # get info of updated query
         query_info = self.get_query_info(query)
 
-        if len(query_info['predictors']) >= 1:
-            # select from predictor
+        if self.is_predictor(query.from_table):
+            # select from predictor (a model that is only mentioned inside a CTE body does not count)
             return self.plan_select_from_predictor(query)
         elif is_api_db:
             return self.plan_api_db_select(query)
